@@ -287,6 +287,10 @@ def hang_site(desc):
 
 def tail_report(txt):
     ls = [l for l in txt.splitlines() if l.strip()]
+    for i, l in enumerate(ls):
+        if 'ERROR: ' in l and 'Sanitizer' in l:
+            ls = ls[i:]
+            break
     keep = []
     for l in ls:
         if 'ERROR:' in l or FRAME.match(l) or 'runtime error' in l:
@@ -405,7 +409,7 @@ def run_property(prop, tier, seed, only=None, only_mon=None, verbose=False):
         'wall_s': round(wall, 2),
         'violations': len(unknown),
     }
-    if only is None and not only_mon:
+    if only is None and not only_mon and not os.environ.get('VERIF_NO_EVIDENCE'):
         os.makedirs(os.path.join(VERIF, 'evidence'), exist_ok=True)
         json.dump(ev, open(os.path.join(VERIF, 'evidence', prop + '.json'), 'w'), indent=1)
     log('%s %s: %d cases, %d distinct, %d unlisted violation keys, %d known findings, %.1fs' %
